@@ -34,6 +34,15 @@ pub struct OuterFrom {
 
 impl OuterFrom {
     pub fn start(di: &syn::DeriveInput) -> Result<Self> {
+        // The receivers of these traits are filled from a single syntax element;
+        // the generated code has no way to pick a variant.
+        if let syn::Data::Enum(_) = di.data {
+            return Err(
+                Error::custom("this trait can only be derived for structs, not enums")
+                    .with_span(&di.ident),
+            );
+        }
+
         Ok(OuterFrom {
             container: Core::start(di)?,
             attrs: Default::default(),
